@@ -45,6 +45,8 @@ type modelCfg struct {
 	SlotMax      int64    `json:"slotmax"`
 	UnbondPeriod int64    `json:"unbondperiod"`
 	UnbondMax    int64    `json:"unbondmax"`
+	ExtBond      int64    `json:"extbond"`
+	ExtDeleg     int64    `json:"extdeleg"`
 }
 
 type ubnd struct {
@@ -82,7 +84,10 @@ type step struct {
 	Lp     int64               `json:"lp"`
 	St     map[string]acctProj `json:"st,omitempty"`
 	Lost   []lostRec           `json:"lost,omitempty"`
+	Stale  []lostRec           `json:"stale,omitempty"`
 	Tot    map[string]int64    `json:"tot,omitempty"`
+	Tot0   map[string]int64    `json:"tot0,omitempty"`
+	Xst    map[string]string   `json:"xst,omitempty"`
 }
 type behaviour struct {
 	Cfg   modelCfg `json:"cfg"`
@@ -122,6 +127,7 @@ type world struct {
 	accts    []string
 	targets  []string
 	treasury module.Address
+	governance module.Address
 	curLock  int64
 	tot0     [4]*big.Int // supply, total stake, total delegation, total bond at model block 0
 }
@@ -162,6 +168,7 @@ func (o acctObs) unstaking() *big.Int { return o.unstakes.GetUnstakeAmount() }
 func (o acctObs) locked() *big.Int    { return new(big.Int).Add(o.stake, o.unstaking()) }
 
 type netObs struct {
+	supply *big.Int
 	height int64
 	acct   map[string]acctObs // by address string
 }
@@ -209,6 +216,11 @@ func (w *world) checkInvariants(prev *netObs) (*netObs, *outcome) {
 	}
 	obs := w.observeAll()
 	active := w.activePReps(obs)
+	cur.supply = sim.TotalSupply()
+	burnedSince := new(big.Int)
+	if prev != nil {
+		burnedSince.Sub(prev.supply, cur.supply)
+	}
 	for ai, a := range w.all {
 		o := obs[ai]
 		cur.acct[string(a.Bytes())] = o
@@ -268,6 +280,7 @@ func (w *world) checkInvariants(prev *netObs) (*netObs, *outcome) {
 					}
 				}
 				min := new(big.Int).Sub(po.locked(), due)
+				min.Sub(min, burnedSince) // slashed bonds leave the stake and are burned
 				if o.locked().Cmp(min) < 0 {
 					set(viol("unstake:early-release", "heights %d..%d: stake+unstaking of account %s fell from %v to %v although only %v was due",
 						prev.height, H, who, po.locked(), o.locked(), due))
@@ -413,7 +426,8 @@ func newWorld(cfg modelCfg, rnd *rand.Rand) (*world, error) {
 	}
 	sim := icsim.VerifFork(base.sim)
 	preps, users, bonders, treasury := base.preps, base.users, base.bonders, base.treasury
-	w := &world{sim: sim, addr: map[string]module.Address{}, name: map[string]string{}, treasury: treasury, curLock: 1}
+	w := &world{sim: sim, addr: map[string]module.Address{}, name: map[string]string{}, treasury: treasury, curLock: 1,
+		governance: base.governance}
 	w.unit = new(big.Int).Mul(big.NewInt(2000/cfg.Fee), icx)
 	w.all = append(w.all, preps...)
 	w.all = append(w.all, users...)
@@ -451,8 +465,18 @@ func newWorld(cfg modelCfg, rnd *rand.Rand) (*world, error) {
 	}
 	// the treasury pays reward claims; icsim does not issue ICX, so it is funded by a user
 	blk.AddTransaction(sim.Transfer(users[uperm[len(w.accts)]], treasury, new(big.Int).Mul(big.NewInt(1000), icx)))
+	var cand []module.Address // external P-Reps must hold exactly the background votes the spec assumes
+	for _, i := range perm {
+		d, b := icsim.VerifPRepVotes(sim, preps[i])
+		if d != nil && d.Cmp(w.amount(cfg.ExtDeleg)) == 0 && b.Cmp(w.amount(cfg.ExtBond)) == 0 {
+			cand = append(cand, preps[i])
+		}
+	}
+	if len(cand) < len(ext) {
+		return nil, fmt.Errorf("not enough P-Reps with background delegation %d / bond %d units", cfg.ExtDeleg, cfg.ExtBond)
+	}
 	for i, n := range ext {
-		p := preps[perm[i]]
+		p := cand[i]
 		w.addr[n] = p
 		w.name[p.String()] = n
 		var pi int
@@ -522,6 +546,8 @@ func (w *world) txsOf(s step, tag string) []icsim.Transaction {
 		return []icsim.Transaction{sim.RegisterPRep(from, prepInfo(tag)), sim.SetBonderList(from, bl)}
 	case "unreg":
 		return []icsim.Transaction{sim.UnregisterPRep(from)}
+	case "disq":
+		return []icsim.Transaction{sim.DisqualifyPRep(w.governance, w.addr[s.To])}
 	case "claim":
 		return []icsim.Transaction{sim.ClaimIScore(from)}
 	}
@@ -581,8 +607,10 @@ func (w *world) project(n string, o acctObs) (acctProj, int64, error) {
 	switch icsim.VerifPRepStatus(w.sim, []module.Address{w.addr[n]})[0] {
 	case "active":
 		p.Reg = "active"
-	case "inactive":
+	case "unregistered":
 		p.Reg = "unreg"
+	case "disqualified":
+		p.Reg = "disq"
 	default:
 		p.Reg = "none"
 	}
@@ -714,6 +742,12 @@ func runBehaviour(b behaviour, rnd *rand.Rand) (res *outcome, blocks int, info m
 		first := make([]int, len(txSteps)) // receipt index of the first transaction of each step
 		n := 1
 		claimed := map[string]bool{}
+		claimable := map[string]*big.Int{} // ICX the account's I-Score is worth before the block
+		for _, s := range txSteps {
+			if s.Op == "claim" && claimable[s.A] == nil {
+				claimable[s.A] = new(big.Int).Div(sim.QueryIScore(w.addr[s.A]), big.NewInt(1000))
+			}
+		}
 		for k, s := range txSteps {
 			first[k] = n
 			tag := fmt.Sprintf("r%d-%d", regs, rnd.Intn(1<<30))
@@ -732,7 +766,19 @@ func runBehaviour(b behaviour, rnd *rand.Rand) (res *outcome, blocks int, info m
 		blocks++
 		if err != nil {
 			// the block itself failed (timer handling, term processing): the network cannot make progress
-			return viol("block-execution-failed", "real block %d (model block %d) failed: %v", sim.BlockHeight()+1, hModel, err), blocks, info
+			o := viol("block-execution-failed", "real block %d (model block %d) failed: %v", sim.BlockHeight()+1, hModel, err)
+			// the spec recorded which unbonding-timer entries a 100%% slash leaves without an unbond
+			for _, st := range b.Steps[:i] {
+				for _, l := range st.Stale {
+					if l.E == hModel && strings.Contains(err.Error(), "Unbond timer not found") {
+						o.key = "unbond:slashed-while-unbonding:stale-timer-entry:block-fails"
+						o.what += fmt.Sprintf(" [history class: account %s was unbonding from a P-Rep when the P-Rep's bonds were slashed by 100%%; "+
+							"the unbond entry was removed but the account stayed in the unbonding timer of its expire height, and "+
+							"handleUnbondingTimer fails the block at that height]", l.A)
+					}
+				}
+			}
+			return o, blocks, info
 		}
 		// accept / reject
 		var resOutcome *outcome
@@ -762,6 +808,7 @@ func runBehaviour(b behaviour, rnd *rand.Rand) (res *outcome, blocks int, info m
 			break
 		}
 		// the property on the real state after the block with the transactions (timers of this height have fired)
+		prevBlock := prev
 		cur, o := w.checkInvariants(prev)
 		if o != nil {
 			if o.key == "unstake:overdue" && end != nil {
@@ -777,6 +824,7 @@ func runBehaviour(b behaviour, rnd *rand.Rand) (res *outcome, blocks int, info m
 			break
 		}
 		// predicted projection
+		paid := new(big.Int)
 		for _, name := range w.accts {
 			got, d, err := w.project(name, cur.acct[string(w.addr[name].Bytes())])
 			if err != nil {
@@ -785,17 +833,43 @@ func runBehaviour(b behaviour, rnd *rand.Rand) (res *outcome, blocks int, info m
 			if d != dust[name] && (!claimed[name] || d < dust[name]) {
 				return viol("balance-dust", "model block %d: balance of %s changed by %d loop without a reward claim", hModel, name, d-dust[name]), blocks, info
 			}
+			if claimed[name] {
+				// ClaimAccounted: the claimer receives exactly the ICX its I-Score was worth
+				got := big.NewInt(d - dust[name])
+				paid.Add(paid, got)
+				if got.Cmp(claimable[name]) != 0 {
+					return viol("claim:not-accounted", "model block %d: claim of %s paid %v loop, its I-Score was worth %v loop",
+						hModel, name, got, claimable[name]), blocks, info
+				}
+			}
 			dust[name] = d
 			if df := diffProj(name, end.St[name], got); df != "" {
 				return diverge("after model block %d: %s", hModel, df), blocks, info
 			}
 		}
+		// ClaimAccounted: what the claimers received left the treasury, nothing else did
+		tb, ta := prevBlock.acct[string(w.treasury.Bytes())].bal, cur.acct[string(w.treasury.Bytes())].bal
+		if d := new(big.Int).Sub(tb, ta); d.Cmp(paid) != 0 {
+			return viol("claim:treasury", "model block %d: treasury changed by -%v loop, claimers received %v loop", hModel, d, paid), blocks, info
+		}
 		// predicted network totals (relative to model block 0; the spec starts with supply = accounts * MaxAmt)
 		now := w.totals()
-		wantTot := [4]int64{end.Tot["supply"] - int64(len(w.accts))*b.Cfg.MaxAmt, end.Tot["tstake"], end.Tot["tdeleg"], end.Tot["tbond"]}
+		wantTot := [4]int64{end.Tot["supply"] - end.Tot0["supply"], end.Tot["tstake"] - end.Tot0["tstake"],
+			end.Tot["tdeleg"] - end.Tot0["tdeleg"], end.Tot["tbond"] - end.Tot0["tbond"]}
 		for k, nm := range []string{"total supply", "total stake", "total delegation", "total bond"} {
 			if d := new(big.Int).Sub(now[k], w.tot0[k]); d.Cmp(w.amount(wantTot[k])) != 0 {
 				return diverge("after model block %d: %s changed by %v, spec says %d units", hModel, nm, d, wantTot[k]), blocks, info
+			}
+		}
+		// BurnAccounted on the real chain: the supply only shrinks, by what the spec says was burned
+		if d := new(big.Int).Sub(w.tot0[0], now[0]); d.Cmp(w.amount(end.Tot["burned"])) != 0 {
+			return diverge("after model block %d: %v loop burned, spec says %d units", hModel, d, end.Tot["burned"]), blocks, info
+		}
+		for _, n := range b.Cfg.Ext {
+			st := icsim.VerifPRepStatus(sim, []module.Address{w.addr[n]})[0]
+			want := map[string]string{"active": "active", "disq": "disqualified"}[end.Xst[n]]
+			if st != want {
+				return diverge("after model block %d: external P-Rep %s is %s, spec says %s", hModel, n, st, want), blocks, info
 			}
 		}
 		// T-1 empty blocks up to the next model block
